@@ -85,6 +85,8 @@ def run(prog, R):
                     if not (isinstance(ee, tuple) and (ee[0] == "un" or ee[0] == "c")):
                         bad.append(("Float", show(ee)))
         R.ob("C11.2-flags-set-by-scanner", "number(): empty_int iff the digit scanner after a radix prefix found no digit", not bad and n >= 10, num.at, f"{n} literal-returning paths; {bad[:3]}")
+    import scanners
+    scanners.check(prog, R, "C11.2-digit-scanners")
     at = R.anchor(prog, "oq3_lexer::Cursor::advance_token")
     if at:
         ps, tr = paths(prog, at.npath, 50000)
